@@ -65,7 +65,7 @@ def _node_content(R: Draw, g: DocGen, inline_ok: bool = True) -> list[dict]:
             out.append(g.node(R, t, 1, 4))
     from .mutate import normalize_children
 
-    if R.bool(0.08):
+    if R.bool(0.16):
         # the list form of the API takes unmerged neighbours too: three text nodes with the same marks (Fragment.from_
         # has to join them)
         ms = g.mark_set(R, rs.top, 0.0)
